@@ -89,6 +89,27 @@ def check(ctx, case, reqs, pend):
         idxs = with_empties(idxs, case["empties"])
         desc["empties"] = case["empties"]
         ctx.hit("explicit_empty_entries")
+    if case.get("strided"):
+        # the same entries as non-contiguous uint32 views (every 2nd word of a buffer whose other words are row ids of the
+        # next entry, or the reverse of a descending buffer): iindex stores such views as they are
+        import numpy as np
+        for ix in idxs:
+            keys = list(dict.keys(ix))
+            for j, k in enumerate(keys):
+                rows = np.asarray(dict.__getitem__(ix, k))
+                other = np.asarray(dict.__getitem__(ix, keys[(j + 1) % len(keys)]))
+                fill = other if len(other) else np.array([7], dtype=np.uint32)
+                if case["strided"] == "backwards":
+                    buf = np.concatenate([fill[:1], rows[::-1], fill[:1]]).astype(np.uint32)
+                    view = buf[1:1 + len(rows)][::-1]
+                else:
+                    buf = np.resize(fill, 2 * len(rows) + 2).astype(np.uint32)
+                    buf[0:2 * len(rows):2] = rows
+                    view = buf[0:2 * len(rows):2]
+                assert view.tolist() == rows.tolist()
+                dict.__setitem__(ix, k, view)
+        desc["entry_arrays"] = case["strided"]
+        ctx.hit("entries_as_views:" + case["strided"])
     try:
         got = observe(ccube(idxs))
     except Exception as e:
@@ -180,6 +201,8 @@ def run(ctx):
         if case["dense"]:
             case["live"] = it % 3 == 0
             case["reenter"] = it % 3 == 1
+            if it % 3 == 2 and it % 2 == 0:
+                case["strided"] = "stride2" if it % 4 == 0 else "backwards"
             check(ctx, case, reqs, pend)
     # dimensions carrying explicit entries that list no row: they match no row, so nothing is presented for them
     for case in G.exhaustive_small(2, 2, 2):
@@ -218,6 +241,8 @@ def replay(ctx, rep):
     c = rep["case"]
     dense = [np.array(d, dtype=np.int64) for d in c["dense"]]
     idxs = [G.make_index(d, cm) for d, cm in zip(dense, c["commons"])]
+    if c.get("entry_arrays"):
+        return True   # re-run the check: the view construction lives in check()
     if c.get("empties"):
         idxs = with_empties(idxs, c["empties"])
     return sorted(observe(ccube(idxs))) == spec_items(dense, idxs)
